@@ -13,7 +13,7 @@ From Coq Require Import List ZArith Bool String Ascii Lia.
 From DD Require Import Model.Circuit Model.Query Model.Enumerate Model.StreamMsg
   Proofs.Semantics Proofs.CountsA Proofs.QueryDefs Proofs.C05Proof Proofs.StreamMsgDefs
   Proofs.StreamMsgParse Proofs.StreamMsgExec Proofs.StreamMsgOrder Proofs.StreamMsgRanges
-  Proofs.StreamMsgMain.
+  Proofs.StreamMsgMain Proofs.C13F18.
 Import ListNotations.
 Open Scope Z_scope.
 
@@ -159,13 +159,14 @@ Print Assumptions C13_result_core.
 
 (* enum: the rendering (configurations joined by ';', literals by ' ') of the library's
    enumerate with the cursor, amount = the limit, by default min(#models, 1000); saturated only
-   when cursor + limit exceeds usize *)
+   when cursor + limit exceeds usize.  The cursor is the one of the SET of assumed literals
+   (enum_key = sorted by feature, repeated literals removed: repair F19 of finding K12; C06_key_is_set) *)
 Theorem C13_result_enum : forall CC (X : extops CC) C n dbg (st : sstate CC) line chs rq,
   wf_sstate C n st -> ext_total X ->
   parse_request X V1 dbg st line = ROk rq -> r_cmd rq = "enum"%string ->
   enum_safe (dd st) (cur st) (sc st) (p_params (r_args rq)) ->
   exists am,
-    (cur_get (cur st) (sort_abs (p_params (r_args rq))) + enum_limit (dd st) (r_args rq) <= u64_max ->
+    (cur_get (cur st) (enum_key (p_params (r_args rq))) + enum_limit (dd st) (r_args rq) <= u64_max ->
      am = enum_limit (dd st) (r_args rq)) /\
     handle_stream_msg X V1 dbg st line chs =
     (let '(s', c', r) := enumerate (dd st) (p_params (r_args rq)) am (cur st) (sc st) in
@@ -209,6 +210,18 @@ Print Assumptions C13_range_members.
 Theorem C13_range_ascending : forall a b, Sorted.StronglySorted Z.lt (zrange a b).
 Proof. exact zrange_sorted. Qed.
 Print Assumptions C13_range_ascending.
+
+(* F18 (/repo 2026f7b, repair of finding K6): the code no longer expands a limited range a..b,
+   a <= b, with an end point outside the boundary; it pushes a and b only.  [get_numbers_f18]
+   (Proofs/C13F18.v) is that code: the V1 definitions with this one case changed.  The model above
+   still expands -- and that is the same function: for EVERY token list, every boundary (a u32 in
+   the Rust: 0 <= b <= 4294967295; only 0 <= b is needed) and both profiles the two return the
+   same Ok value, the same error code and text, the same panic.  So all theorems about
+   [get_numbers V1] hold for the repaired code; the time and memory F18 saves are not modelled. *)
+Theorem C13_f18_same_result : forall dbg ps b, 0 <= b ->
+  get_numbers_f18 dbg ps b = get_numbers V1 dbg ps b.
+Proof. exact f18_same_result. Qed.
+Print Assumptions C13_f18_same_result.
 
 (* what the prefix parsers of the Rust accept beyond that (trailing garbage is ignored, an
    alternative whose i32 conversion overflows falls through to the next one) is part of the
@@ -307,4 +320,26 @@ Proof.
   split; [split; [reflexivity|split; [repeat constructor|eexists; vm_compute; reflexivity]]|].
   split; [reflexivity|]. split; [repeat constructor; discriminate|].
   repeat split; vm_compute; reflexivity.
+Qed.
+
+(* F18: `1..2147483647` on five features.  The repaired parser is evaluated (two numbers); the
+   answer of the expanding model follows by C13_f18_same_result WITHOUT expanding 2^31 numbers.  A
+   later malformed token still wins, a range inside the boundary is expanded as before. *)
+Example ex13_f18 :
+  parse_range_f18 5 "1..2147483647" = inl [1; 2147483647] /\
+  get_numbers_f18 true ["1..2147483647"] 5 =
+    RErr E3 "E3 error: not all parameters are within the boundary of -5 to 5" /\
+  get_numbers V1 true ["1..2147483647"] 5 =
+    RErr E3 "E3 error: not all parameters are within the boundary of -5 to 5" /\
+  get_numbers V1 false ["-2147483648..3"; "2"; "x"] 5 =
+    RErr E3 "E3 error: not all parameters are within the boundary of -5 to 5" /\
+  get_numbers V1 true ["1..2147483647"; ";"] 5 =
+    RErr E3 "E3 Parsing Error: Error { input: "";"", code: Digit }" /\
+  get_numbers_f18 true ["-2..2"; "5..4"; "4"] 5 = ROk ([-2; -1; 1; 2; 4], 3%nat).
+Proof.
+  split; [vm_compute; reflexivity|]. split; [vm_compute; reflexivity|].
+  split; [rewrite <- C13_f18_same_result by lia; vm_compute; reflexivity|].
+  split; [rewrite <- C13_f18_same_result by lia; vm_compute; reflexivity|].
+  split; [rewrite <- C13_f18_same_result by lia; vm_compute; reflexivity|].
+  vm_compute; reflexivity.
 Qed.
